@@ -10,6 +10,19 @@ open G1drv
 
 let rec int_of_nat = function O -> 0 | S k -> 1 + int_of_nat k
 
+(* Every distinct spec-mismatch signature (message with the digits removed) is printed once;
+   repetitions are only counted (EXTRA lines after the SUMMARY), so that the many executions of
+   one class cannot crowd out a different mismatch in the pipeline's bounded MISMATCH list. *)
+let seen_sig : (string, int ref) Hashtbl.t = Hashtbl.create 16
+let known_class = ref 0          (* executions ending in the known lost wake-up configuration *)
+let blocked_benign = ref 0       (* executions ending with the listener blocked and nothing undelivered *)
+let signature m = String.concat "" (List.map (fun c -> if c >= '0' && c <= '9' then "" else String.make 1 c) (List.init (String.length m) (String.get m)))
+let once m =
+  let sg = signature m in
+  match Hashtbl.find_opt seen_sig sg with
+  | Some r -> incr r; None
+  | None -> Hashtbl.add seen_sig sg (ref 1); Some m
+
 let mk_sys toks =
   match toks with
   | kind :: cap :: tcap :: lmodes :: nprogs :: ffs :: rest ->
@@ -104,11 +117,23 @@ let mk_sys toks =
                 if get delivered i + p <> n then seterr (Printf.sprintf "counting: id %d notified %d, delivered %d + pending %d" i n (get delivered i) p) end
               else if get delivered i + p = 0 then seterr (Printf.sprintf "bit set: id %d notified %d times, never delivered and not pending" i n)) notified;
             (* no lost wake-up: the listener sleeps forever although a notify returned Ok and its id is undelivered *)
-            if blocked <> [] then
-              List.iter (fun (i, _) -> if get ok_returned i > 0 then
-                seterr (Printf.sprintf "LOST-WAKEUP: listener blocked forever in blocking_wait (trigger empty) while id %d, whose notify returned Ok, is pending and undelivered" i)) pending
+            if blocked <> [] then begin
+              let lost = List.filter (fun (i, _) -> get ok_returned i > 0) pending in
+              if lost = [] then incr blocked_benign
+              else begin
+                let (i, _) = List.hd lost in
+                (* the known class (known_findings.json key event:lost-wakeup-notified-empty-trigger) is EXACTLY:
+                   notification_state = Notified, trigger empty, listener (thread 0) blocked; anything else is a different defect *)
+                if List.mem "st2" final && List.mem "tr0" final && blocked = ["B0"] then begin
+                  incr known_class;
+                  seterr (Printf.sprintf "LOST-WAKEUP-KNOWN-CLASS: listener blocked forever in blocking_wait with notification_state=Notified and an empty trigger while id %d, whose notify returned Ok, is pending and undelivered" i) end
+                else seterr (Printf.sprintf "LOST-WAKEUP-OTHER: listener blocked forever (final [%s]) while id %d, whose notify returned Ok, is pending and undelivered" (sconcat final) i)
+              end end
           end);
-        !err) }
+        (match !err with None -> None | Some m -> once m)) }
   | _ -> failwith "unknown case header"
 
-let () = run mk_sys (fun toks -> String.concat " " toks)
+let () =
+  run mk_sys (fun toks -> String.concat " " toks);
+  Printf.printf "EXTRA known_class_executions %d\nEXTRA blocked_forever_benign %d\n" !known_class !blocked_benign;
+  Hashtbl.iter (fun sg r -> Printf.printf "EXTRA spec_signature_repeats %d\n" (!r - 1)) seen_sig
